@@ -321,6 +321,7 @@ fn eval_err_to_stacktrace(path: &Path, func: Option<&str>, error: EvalError)
         EvalError::EvalForStatementsFailed{source} |
         EvalError::ValidateArgsFailed{source} |
         EvalError::DeclareFunctionFailed{source} |
+        EvalError::EvalReturnExprFailed{source} |
         EvalError::EvalBlockFailed{source} |
         EvalError::EvalStmtFailed{source} |
         EvalError::EvalBinOpLhsFailed{source} |
